@@ -75,10 +75,19 @@ func (d *PathDecoder) fileByName(name string) (*hcl.File, error) {
 	return f, nil
 }
 
-func (d *PathDecoder) bodyForFileAndPos(name string, f *hcl.File, pos hcl.Pos) (*hclsyntax.Body, error) {
+func (d *PathDecoder) bodyForFile(name string, f *hcl.File) (*hclsyntax.Body, error) {
 	body, isHcl := f.Body.(*hclsyntax.Body)
 	if !isHcl {
 		return nil, &UnknownFileFormatError{Filename: name}
+	}
+
+	return body, nil
+}
+
+func (d *PathDecoder) bodyForFileAndPos(name string, f *hcl.File, pos hcl.Pos) (*hclsyntax.Body, error) {
+	body, err := d.bodyForFile(name, f)
+	if err != nil {
+		return nil, err
 	}
 
 	if !body.Range().ContainsPos(pos) &&
